@@ -92,3 +92,20 @@ def f4_disconnected_false_no(h, viol, ftxt):
     n = h.params["n"]
     e1, e2 = _graph_edges(viol["model"], "A"), _graph_edges(viol["model"], "B")
     return (not _connected(n, e1)) and _lc_solution_space_dim(n, e1, e2) >= 5
+
+
+def f4_constructed(h, viol, ftxt):
+    """same finding F4 seen through the constructed-pairs harness (G2 = G or G2 = LC_v(G))"""
+    if not viol["name"].startswith("equivalent-by-construction-but-answered-no"):
+        return False
+    n, v = h.params["n"], h.params["v"]
+    e1 = _graph_edges(viol["model"], "G")
+    e2 = dict(e1)
+    if v >= 0:
+        def has(i, j):
+            return e1.get((min(i, j), max(i, j)), 0)
+        for j in range(n):
+            for k in range(j + 1, n):
+                if j != v and k != v and has(v, j) and has(v, k):
+                    e2[(j, k)] = 1 - e1.get((j, k), 0)
+    return (not _connected(n, e1)) and _lc_solution_space_dim(n, e1, e2) >= 5
